@@ -1599,6 +1599,28 @@ pub fn check_c07(tier: &str) -> i32 {
         }
     }
     client_seeds.push((false, Req::ReadRegs { fc: 3, start: 0, count: 1 }, mbap_frame(0, 1, &[0x83, 2])));
+    // reads that end at the top of the address space: the genuine reply, and self-consistent
+    // replies (byte count and frame length agree) carrying one or two units more or one less than
+    // was asked for - index arithmetic on the client side
+    for fc in 1..=4u8 {
+        for count in [1u16, 2, 9] {
+            let start = (0x10000u32 - count as u32) as u16;
+            let req = if fc <= 2 { Req::ReadBits { fc, start, count } } else { Req::ReadRegs { fc, start, count } };
+            let (g, _) = good_reply(&req);
+            client_seeds.push((false, req.clone(), mbap_frame(0, 1, &g)));
+            client_seeds.push((true, req.clone(), rtu_frame(1, &g)));
+            let unit = if fc <= 2 { 1usize } else { 2 };
+            for delta in [-1i32, 1, 2] {
+                let n = g[1] as i32 + delta * unit as i32;
+                if n < 0 {
+                    continue;
+                }
+                let mut p = vec![fc, n as u8];
+                p.extend((0..n).map(|i| 0x11u8.wrapping_mul(i as u8 + 1)));
+                client_seeds.push((false, req.clone(), mbap_frame(0, 1, &p)));
+            }
+        }
+    }
     rep.bounds = json!({"server_seeds": server_seeds.len(), "client_seeds": client_seeds.len(), "deviations": if thorough { 2 } else { 1 }, "raw_string_len": if thorough { 3 } else { 2 }, "lattice_string_len": if thorough { 7 } else { 5 }});
     let tails = [Tail::None, Tail::Eof, Tail::Reset, Tail::TimedOut];
     // 1-deviation neighbourhood
